@@ -217,6 +217,15 @@ def run_case(case):
             tab = rng.random(dims) < 0.7
             tables[f"FT{j}"] = tab.tolist()
             fns.append([f"f{j}_filter", args + (["_period"] if usep else []), f"FT{j}[{', '.join(args + (['_period'] if usep else []))}]"])
+        scalar_functions = []
+        if rng.random() < 0.35:
+            # a filter written for scalars: it reduces over its own stacked conditions (valid user
+            # code under lcm's contract that functions are called with scalars)
+            a0 = str(rng.choice(snames))
+            b0 = str(rng.choice(cnames)) if cnames else a0
+            fns.append(["red_filter", list(dict.fromkeys([a0, b0])),
+                        f"xp.any(xp.asarray([{a0} == {int(rng.integers(0, sizes[a0]))}, {b0} >= {int(rng.integers(0, sizes[b0]))}]))"])
+            scalar_functions.append("red_filter")
         # extra unrestricted variables
         if rng.random() < 0.7:
             states.append(["w", {"kind": "lin", "start": 1.0, "stop": 5.0, "n": int(rng.integers(2, 5))}])
@@ -233,7 +242,8 @@ def run_case(case):
         for s, _ in states:
             fns.append([f"next_{s}", [s], s])
         fns = [fns[i] for i in rng.permutation(len(fns))]
-        desc = {"n_periods": T, "states": states, "choices": choices, "functions": fns, "stochastic": [], "tables": tables, "params": {}}
+        desc = {"n_periods": T, "states": states, "choices": choices, "functions": fns, "stochastic": [], "tables": tables, "params": {},
+                "scalar_functions": scalar_functions}
         from vlib.refmodel import Ref
 
         ref = Ref(desc)
@@ -244,7 +254,7 @@ def run_case(case):
         res["sig"] = str((ss, cs, T, nf, [f[1] for f in fns if f[0].endswith("_filter")]))
         res["nontrivial"] = any(not ref.filter_mask(t).all() for t in range(T))
         res["sample"] = {"kind": "sampled", "desc": {k: v for k, v in desc.items() if k != "tables"}}
-    res["features"] = {case["kind"]: True}
+    res["features"] = {case["kind"]: True, "scalar_style_filter": bool(case["kind"] == "sampled" and res.get("sample", {}).get("desc", {}).get("scalar_functions"))}
     res["status"] = "violated" if res["violations"] else "held"
     return res
 
